@@ -43,6 +43,7 @@ class Ctx(object):
         self.spaces = {}                            # local name -> canonical space expression
         self.sdefs = {}                             # scalar local -> defining expression (inlined)
         self.loop_scalars = set(cfg.get('loop_scalars', ()))   # scalars recomputed in every iteration (parameters)
+        self.perm = set()                           # range aliases that are random permutations
         self.oplist_alias = {}                      # proxs -> 'g[#].convex_conj.proximal(...)' (from the preamble)
         self.keysets = set()                        # unique_ranges
         self.options = set(cfg.get('options', ()))  # non-numeric option names (callback_loop)
@@ -313,6 +314,12 @@ def is_kwargs_pop(v):
             and len(v.args) == 2 and isinstance(v.args[0], ast.Constant) and isinstance(v.args[1], ast.Constant))
 
 
+def is_perm_range(ctx, it):
+    """np.random.permutation(range(...))"""
+    return (isinstance(it, ast.Call) and ast.unparse(it.func) == 'np.random.permutation' and len(it.args) == 1
+            and not it.keywords and is_index_range(ctx, it.args[0]) and not isinstance(it.args[0], ast.Name))
+
+
 def is_index_range(ctx, it):
     """range(length) | range(len(ops)) | range(n_ops) | rng (recorded alias)"""
     if isinstance(it, ast.Name):
@@ -390,7 +397,8 @@ def stmt(ctx, s, out, depth):
             stmts(ctx, s.body, prog, 2)
             ctx.inner.append((ctx.idx, prog))
             ctx.idx = None
-            emit('(OFor %s %s_inner%d)' % (cstr(s.target.id), ctx.name, len(ctx.inner)))
+            kind = 'OForOrd' if isinstance(it, ast.Name) and it.id in ctx.perm else 'OFor'
+            emit('(%s %s %s_inner%d)' % (kind, cstr(s.target.id), ctx.name, len(ctx.inner)))
             return
         ctx.err(s, 'nested loop')
     if isinstance(s, ast.AugAssign) and in_loop and isinstance(s.target, ast.Name) \
@@ -429,9 +437,14 @@ def stmt(ctx, s, out, depth):
         if names is None or not all(isinstance(n, ast.Name) for n in names):
             ctx.err(s, 'assignment target')
         ids = [n.id for n in names]
-        # index range alias:  rng = range(length)
+        # index range alias:  rng = range(length)   |   rng = np.random.permutation(range(length))
         if len(ids) == 1 and in_loop and is_index_range(ctx, pick(ctx, v)) and not isinstance(pick(ctx, v), ast.Name):
             ctx.ranges[ids[0]] = ast.unparse(pick(ctx, v))
+            ctx.perm.discard(ids[0])
+            return
+        if len(ids) == 1 and in_loop and is_perm_range(ctx, pick(ctx, v)):
+            ctx.ranges[ids[0]] = ast.unparse(pick(ctx, v))
+            ctx.perm.add(ids[0])
             return
         # scalar preparation
         if all(i in ctx.scalars for i in ids):
@@ -903,10 +916,18 @@ LCONFIG = {
 }
 
 
+LCONFIG['kaczmarz_random'] = dict(LCONFIG['kaczmarz'], fn='kaczmarz',
+                                  flags=dict(LCONFIG['kaczmarz']['flags'], random=True))
+LCONFIG['adupdates_random'] = dict(LCONFIG['adupdates'], fn='adupdates',
+                                   flags=dict(LCONFIG['adupdates']['flags'], random=True))
+LCONFIG['adupdates_simple_random'] = dict(LCONFIG['adupdates_simple'], fn='adupdates_simple',
+                                          flags=dict(LCONFIG['adupdates_simple']['flags'], random=True))
+
+
 def translate_list_solver(name, cfg, repo):
     cfg = dict(cfg)
     cfg.pop('pre_hash', None)
-    fn = find_fn(repo, cfg, name)
+    fn = find_fn(repo, cfg, cfg.get('fn', name))
     ctx = Ctx(name + '_l', cfg)
     pre = []
     loops = [s for s in fn.body if isinstance(s, ast.For)]
@@ -921,7 +942,8 @@ def translate_list_solver(name, cfg, repo):
         if t.startswith('(OFor'):
             idx, prog = ctx.inner[k]
             k += 1
-            items.append('(IFor [\n' + ';\n'.join('      ' + to_L(ctx, u) for u in prog) + '])')
+            items.append('(%s [\n' % ('IForOrd' if t.startswith('(OForOrd') else 'IFor')
+                         + ';\n'.join('      ' + to_L(ctx, u) for u in prog) + '])')
         else:
             items.append('(IStmt %s)' % to_L(ctx, t))
     return ctx, pre, items
